@@ -80,19 +80,27 @@ class Entry (object):
 
 
 class RefTable (object):
-  def __init__ (self):
+  def __init__ (self, capacity=None):
+    # capacity: number of entries the table can hold (None = unbounded)
     self.entries = []
+    self.capacity = capacity
 
   # each command returns (messages, ) where messages is a list of expected switch->controller
   # messages: ("error", etype, code|None) | ("flow_removed", entry_view, reason|None-if-ambiguous)
   def add (self, now, match, priority, actions, flags=0, idle=0, hard=0, cookie=0, is_add=True):
     if flags & W.OFPFF_EMERG:
       return [("error", W.OFPET_FLOW_MOD_FAILED, None)]
+    # identical match and priority: replaced, counters reset, no notification - the entry takes the place of the
+    # old one, so a replacement needs no free slot; anything else needs one (spec 4.6: no room -> ALL_TABLES_FULL)
+    replaces = any(identical(e.match, match) and e.priority == priority for e in self.entries)
+    full = self.capacity is not None and not replaces and len(self.entries) >= self.capacity
     if flags & W.OFPFF_CHECK_OVERLAP:
       for e in self.entries:
         if e.eff() == Entry(match=match, priority=priority).eff() and overlaps(e.match, match):
-          return [("error", W.OFPET_FLOW_MOD_FAILED, W.OFPFMFC_OVERLAP)]
-    # identical match and priority: replaced, counters reset, no notification
+          # refused for two reasons at once: the specification does not rank them
+          return [("error", W.OFPET_FLOW_MOD_FAILED, None if full else W.OFPFMFC_OVERLAP)]
+    if full:
+      return [("error", W.OFPET_FLOW_MOD_FAILED, W.OFPFMFC_ALL_TABLES_FULL)]
     self.entries = [e for e in self.entries if not (identical(e.match, match) and e.priority == priority)]
     self.entries.append(Entry(match=match, priority=priority, actions=actions, flags=flags, idle=idle,
                               hard=hard, cookie=cookie, created=now, touched=now, packets=0, bytes=0))
